@@ -48,6 +48,18 @@ class Ctx:
             # rules (age limits, permission bits), and there is nothing to gain from summarising them
             if b['def_kind'] == 'Fn' and b['arg_count'] == 0 and not [c for c in self.cg.local_edges.get(k, ()) if c in self.B and self.B[c]['def_kind'] != 'Closure']:
                 self.pure.discard(k)
+        # provided (default) methods of the crate's own traits are composition logic over the required accessors (e.g.
+        # `entry_path(name)` = validate + base_dir + push), not roles: always looked through
+        for tr in self.traits.values():
+            for m in tr['methods']:
+                if m.get('key'):
+                    self.pure.discard(m['key'])
+        # argument-less inherent constructors/associated functions (`TempSweep::threshold()`) like argument-less free fns
+        for k in list(self.pure):
+            b = self.B[k]
+            if b['def_kind'] == 'AssocFn' and not b.get('impl_trait') and b['arg_count'] == 0 and \
+                    not [c for c in self.cg.local_edges.get(k, ()) if c in self.B and self.B[c]['def_kind'] != 'Closure']:
+                self.pure.discard(k)
         # scalar conversions (bool -> two-variant enum, index -> index, ...): tiny, and their result usually steers a
         # branch the rules need to follow (e.g. a sync policy derived from the auto_sync flag)
         def scalar(tyid):
